@@ -660,3 +660,39 @@ def term_of(raw):
             raise MirError("line %d: %s" % (line, e))
         _term_cache[text] = t
     return t
+
+
+
+def static_str(mf, alloc):
+    """text of a `static NAME: &str` referenced as `{allocN: &&str}`: allocN holds (pointer to allocM, length), allocM the bytes.
+    None when the dump does not determine it uniquely."""
+    import re as _re
+    cache = getattr(mf, "_static_str_cache", None)
+    if cache is None:
+        cache = mf._static_str_cache = {}
+    if alloc in cache:
+        return cache[alloc]
+    found = set()
+    lines = mf.lines
+    for i, l in enumerate(lines):
+        if l.startswith(alloc + " (static:") and i + 1 < len(lines):
+            m = _re.search(r"(alloc\d+)<imm>[^0-9a-f]*((?:[0-9a-f]{2} ){8})", lines[i + 1])
+            if not m:
+                continue
+            target = m.group(1)
+            n = int.from_bytes(bytes(int(x, 16) for x in m.group(2).split()), "little")
+            for j, l2 in enumerate(lines):
+                if l2.startswith(target + " (size: %d," % n):
+                    hexes = []
+                    k = j + 1
+                    while k < len(lines) and not lines[k].startswith("}"):
+                        part = lines[k].split("\u2502")[0]
+                        part = _re.sub(r"^\s*0x[0-9a-f]+\s*\u2502?", "", part) if "\u2502" in lines[k] and lines[k].strip().startswith("0x") else part
+                        hexes += _re.findall(r"\b[0-9a-f]{2}\b", part)
+                        k += 1
+                    if len(hexes) >= n:
+                        found.add(bytes(int(x, 16) for x in hexes[:n]).decode("utf-8", "replace"))
+                    break
+    res = found.pop() if len(found) == 1 else None
+    cache[alloc] = res
+    return res
